@@ -40,8 +40,58 @@ REDUCED = ["a", ":k", "1", "[]", "[a]", "(f)", "#* a", "#** a", "_", "{a}"]
 EXTRA_HEADS = ["f", ".", ".m", "a.b", "hy.R.m.n", ":k", "1", "\"s\"", "[]", "None", "unpack-iterable", "unpack-mapping", "except", "else", "finally", "unquote", "unquote-splice"]
 POSITIONS = ["{}", "(setv r {})", "(fn [] {})"]
 
+# head-specific clause / argument alphabets (deeper arity where the head has its own sub-syntax)
+FAMILIES = {
+    "try": (["1", "(do)", "(else)", "(else 1)", "(finally)", "(finally 2)", "(except [] 1)", "(except [e E])", "(except [[E F]] 1)", "(except* [E] 1)"], 4),
+    "for": (["[x xs]", "[]", "1", "(do)", "(else)", "(else 1)", "(break)", "[x (do)]", "[[a b] xs]"], 3),
+    "while": (["1", "(do)", "(else)", "(else 1)", "(break)", "(do (setv y 1) y)"], 3),
+    "lfor": (["x", "xs", "(do)", ":if", ":setv", ":do", "1", "#* xs", "y", "(do (setv q 1) q)"], 4),
+    "dfor": (["x", "xs", "(do)", ":if", ":setv", "1", "#** d", "y", "(do (setv q 1) q)"], 4),
+    "gfor": (["x", "xs", "(do)", ":if", ":do", "1", "#* xs"], 4),
+    "sfor": (["x", "xs", "(do)", ":setv", "1", "#* xs"], 4),
+    "match": (["x", "1", "\"None\"", "None", "(. a)", "(. a b)", "(|)", "(| 1 2)", "#(#* _)", "[a #* b]", "{\"a\" 1 #** None}", "{\"k\" v #** r}",
+               "(C :k 1)", "(C 1 :k)", "_", ":as", "y", ":if", "(setv y 1)", "(do)", ":k"], 4),
+    "with": (["[a (f)]", "[(f)]", "[]", "[a]", "[a (do)]", "[:async a (f)]", "[a (f) b (do (setv z 1) (g))]", "1", "(do)"], 3),
+    "defn": (["g", "[]", "[a]", "[a a]", "[#* a #* b]", "[/]", "[*]", "[a / b * c]", "[[a 1] b]", ":async", "\"doc\"", "1", "(do)", "#^ int g", "[#^ (do) a]", ":tp [T]"], 4),
+    "fn": (["[]", "[a]", "[a a]", "[#** k #* a]", "[/]", "[*]", "[[a 1] b]", ":async", "\"doc\"", "1", "(do)", "#^ int []", "(yield)"], 3),
+    "defclass": (["K", "[]", "[B]", "[:k 1]", "[#* b]", "\"doc\"", "1", "(do)", ":tp [T]"], 4),
+    "import": (["a", "a.b", "[x]", "[x :as y]", ":as", "b", "*", "[]", "[*]", ".", "..a", "(do)"], 3),
+    "require": (["a", "a.b", "[x]", "[x :as y]", ":as", "b", "*", "[]", ":macros", ":readers", "[*]", "(do)"], 3),
+    "setv": (["a", "1", "[a b]", "(get a 1)", "a.b", "#* a", "(do)", "None", ":chain", "[a]", "[a #* b #* c]", "#^ int a"], 3),
+    "setx": (["a", "1", "[a b]", "a.b", "(do)", "None"], 2),
+    "del": (["a", "[a #* b]", "#* a", "(get a 1)", "1", "(f)", "a.b", "(do)", "None"], 2),
+    "global": (["a", "b", "1", "a.b", "None"], 2),
+    "nonlocal": (["a", "b", "1", "a.b", "None"], 2),
+    "if": (["1", "(do)", "(do (setv y 1) y)", "(if 1 (do (setv y 1) y) 2)", "None", "True"], 3),
+    "cond": (["1", "(do)", "(do (setv y 1) y)", "True"], 4),
+    "quasiquote": (["~a", "~@a", "(a ~@b)", "~(do)", "[~@(do)]", "`~~a", "f\"{~a}\""], 2),
+    "raise": (["a", ":from", "None", "(do)", "1"], 3),
+    "assert": (["a", "(do)", "(do (setv y 1) y)", "1"], 2),
+    "return": (["a", "(do)", "#* a"], 1),
+    "await": (["a", "(do)"], 1),
+    "yield": (["a", ":from", "(do)", "#* a"], 2),
+    "annotate": (["a", "int", "(do)", "a.b", "(get a 1)", "1"], 2),
+    "cut": (["a", "1", "(do)", "None", "#* a"], 4),
+    "get": (["a", "1", "(do)", "#* a", ":k"], 3),
+    ".": (["a", "b", "[1]", "(m 1)", "(do)", "1", "None", "(m)"], 3),
+    "unpack-iterable": (["a", "(do)"], 2),
+    "py": (["\"1\"", "\"\"", "\"x =\"", "a", "1"], 1),
+    "pys": (["\"x = 1\"", "\"\"", "\"x =\"", "\"  y\"", "a"], 1),
+    "hy.R.hyx-XpizzazzX.m": (["1"], 1),
+    "deftype": (["T", "int", ":tp [A]", "None", "(do)"], 3),
+    "export": ([":objects", ":macros", "[a]", "[]", "a"], 4),
+    "pragma": ([":warn-on-core-shadow", ":hy", "\"1.0\"", "True", ":unknown", "1"], 2),
+    "defmacro": (["m", "[]", "[a]", "[#* a]", "[[a 1]]", "1", "\"doc\"", "(do)", "[#** k]", "[* a]"], 3),
+    "defreader": (["r", "1", "(do)", "[]"], 2),
+    "eval-and-compile": (["1", "(do)", "(setv y 1)"], 2),
+    "do-mac": (["1", "(do)", "'(do)", "'(setv y 1)", "None"], 1),
+}
+EXTRA_PROGRAMS = ["(setv x 1) (nonlocal x)", "(nonlocal x) (setv x 1)", "(global x) (setv x 1)", "(setv x 1) (global x)",
+                  "f\"{(do)}\"", "f\"{a !r :{(do)}}\"", "(f #* (do))", "{1 (do)}", "[(do)]", "(f :k (do))", "(for [_ [0]] (pragma :warn-on-core-shadow False))",
+                  "(lfor x (do) x)", "(lfor x y (do))", "(dfor x y (do) (do))", "(try 1 (finally (do)))", "(while (do) 1)", "(with [(do)] 1)"]
+
 BOUNDS = {
-    "quick": dict(full_args=2, reduced_args=3, nest="reduced1", shards=128),
+    "quick": dict(full_args=2, reduced_args=2, nest="reduced1", shards=128),
     "thorough": dict(full_args=3, reduced_args=4, nest="full1", shards=1024),
 }
 
@@ -49,7 +99,9 @@ BOUNDS = {
 def bounds(tier):
     b = BOUNDS[tier]
     return {"argument_alphabet_full": FULL, "argument_alphabet_reduced": REDUCED, "max_args_full": b["full_args"],
-            "max_args_reduced": b["reduced_args"], "extra_heads": EXTRA_HEADS, "positions": POSITIONS, "positions_note": "all three for trees with <=1 argument, assignment position for longer ones", "nesting": b["nest"]}
+            "max_args_reduced": b["reduced_args"], "extra_heads": EXTRA_HEADS, "positions": POSITIONS, "positions_note": "all three for trees with <=1 argument, assignment position for longer ones", "nesting": b["nest"],
+            "head_specific_families": {h: {"alphabet": a, "max_args": n} for h, (a, n) in FAMILIES.items()},
+            "head_specific_families_note": "quick uses max_args-1 for families with more than 3000 argument lists; thorough max_args+1 where that stays under 200000", "extra_programs": EXTRA_PROGRAMS}
 
 
 def heads():
@@ -81,6 +133,8 @@ def shards(tier):
     step = -(-n // s)
     out = [["flat", lo, min(n, lo + step)] for lo in range(0, n, step)]
     out += [["nest", i, 0] for i in range(32)]
+    out += [["fam", h, 0] for h in FAMILIES]
+    out.append(["extra", 0, 0])
     return out
 
 
@@ -140,10 +194,45 @@ def one(acc, head, args, pos, nested_in=None, sample=False):
                      head=outer, inner_head=head, stage=fields["stage"], exc=fields["exc"], msg=fields["msg"], msgkey=msgkey)
 
 
+def whole(acc, text):
+    """A complete program text (not of the HEAD ARG* shape)."""
+    import re
+    acc.evaluations += 1
+    acc.transitions += 1
+    acc.traces += 1
+    ok, cls, detail, fields = classify(text)
+    acc.outcome(cls)
+    if not ok:
+        msgkey = re.sub(r"[0-9]+|'[^']*'|\"[^\"]*\"", "#", fields["msg"])[:60]
+        acc.disagree("compiler-invariant-broken", {"text": text, "head": "<program>", "inner_head": "<program>"}, detail,
+                     sig=f"{fields['stage']}:{fields['exc']}:{msgkey}:<program>:{text[:30]}", head="<program>", inner_head="<program>",
+                     stage=fields["stage"], exc=fields["exc"], msg=fields["msg"], msgkey=msgkey)
+
+
 def run_shard(shard, tier):
     acc = Acc()
     hs = heads()
     lists = arglists(tier)
+    if shard[0] == "fam":
+        h = shard[1]
+        alpha, n = FAMILIES[h]
+        if tier == "quick" and len(alpha) ** n > 3000:
+            n -= 1                       # quick: one argument fewer for the large families
+        if tier == "thorough" and len(alpha) ** (n + 1) <= 200000:
+            n += 1
+        for k in range(n + 1):
+            for args in itertools.product(alpha, repeat=k):
+                acc.states += 1
+                acc.nontrivial += 1
+                for pos in (0, 1):
+                    one(acc, h, args, pos, sample=(k == 2 and args[0] == alpha[0] and args[1] == alpha[-1] and pos == 1))
+        return acc.result()
+    if shard[0] == "extra":
+        for t in EXTRA_PROGRAMS:
+            acc.states += 1
+            acc.nontrivial += 1
+            whole(acc, t)
+        return acc.result()
     if shard[0] == "flat":
         lo, hi = shard[1], shard[2]
         for idx in range(lo, hi):
@@ -173,6 +262,9 @@ def run_shard(shard, tier):
 
 def recheck(case, tier):
     acc = Acc()
+    if case.get("head") == "<program>":
+        whole(acc, case["text"])
+        return acc.disagreements
     ok, cls, detail, fields = classify(case["text"])
     if not ok:
         import re
